@@ -34,6 +34,7 @@ type RunSpec struct {
 	Warm  bool       `json:"warm,omitempty"`  // C09: render every page once before the tasks start
 	Share bool       `json:"share,omitempty"` // C09: all tasks pass the same data value
 	Note  string     `json:"note,omitempty"`
+	Probe bool       `json:"probe,omitempty"` // C10: re-execute the history several times and compare the executions with each other
 }
 
 // EngineSpec selects how the long-lived engine is constructed.
